@@ -72,6 +72,7 @@ const STAGES: &[(&str, StageFn)] = &[
     ("c09.random", c09::random),
     ("c09.longruns", c09::longruns),
     ("c09.gaps", c09::gaps),
+    ("c09.widewindow", c09::widewindow),
     ("c09.gigabases", c09::gigabases),
     ("c18.gigabases", c09::gigabases),
     ("c18.gaps", c09::gaps),
